@@ -62,6 +62,11 @@ def run(ctx):
   # is one block's history driving another block's update)
   from . import C06
   C06.blockify_inverse(ctx)
+  # ... and so is dealing the statistics out to the devices and collecting the roots again
+  C13.batch_unbatch(ctx)
+  # each (block, axis) statistic is updated from that block's own gradient, with the update chosen for that pair
+  from . import C02
+  C02.statistics(ctx)
 
 
 def _letters_summary(ev, bound, rec):
